@@ -486,6 +486,8 @@ class Program:
         for new, old in sorted(ren.items(), key=lambda kv: -len(kv[0])):
             nl, ol = new.rsplit("::", 1)[-1], old.rsplit("::", 1)[-1]
             if nl == ol:
+                # moved under the same name: the whole path changes
+                text = text.replace(_json.dumps(new)[1:-1], _json.dumps(old)[1:-1])
                 continue
             text = _re.sub(r"::" + _re.escape(nl) + r"(?![A-Za-z0-9_])", "::" + ol, text)
             text = text.replace(f'"name": "{nl}"', f'"name": "{ol}"')
